@@ -20,8 +20,8 @@ STATES_FROM_OUTCOMES = True    # distinct states = distinct snapshots over all u
 LEVEL = 'model_checking'
 TECHNIQUE = ('explicit-state BFS over operation sequences on live PLSSDesc / Tract objects (deepcopy branching, canonical snapshot, '
              'seen-set), with no-side-effect, history-reduction (fresh-object differential) and idempotence oracles on every transition')
-LEVEL_TEXT = ('From 10 seed objects (parsed or unparsed at creation), all sequences of up to 4 (quick) / 7 (thorough) operations out of 25 '
-              '(PLSSDesc) / 13 (Tract) - parse with and without commit and with keyword overrides, parse_tracts, preprocess, config '
+LEVEL_TEXT = ('From 10 seed objects (parsed or unparsed at creation), all sequences of up to 4 (quick) / 7 (thorough) operations out of 26 '
+              '(PLSSDesc) / 14 (Tract) - parse with and without commit and with keyword overrides, parse_tracts, preprocess, config '
               'assignment, sort, filter-with-drop - are explored with state merging; every transition is checked against a freshly '
               'constructed object that replays only the reduced history, so any state that leaks from an earlier parse (accumulated '
               'flags, shared dicts, stale pp_desc) is caught where it first becomes observable, which is depth 2.')
@@ -120,6 +120,7 @@ PLSS_OPS = {
     "config='clean_qq,parse_qq'": (lambda d: setattr(d, 'config', 'clean_qq,parse_qq'), 'cfg'),
     "config='s,e,segment'": (lambda d: setattr(d, 'config', 's,e,segment'), 'cfg'),
     "config=''": (lambda d: setattr(d, 'config', ''), 'cfg'),
+    "config='clean_qq.False,segment.False,parse_qq.False'": (lambda d: setattr(d, 'config', 'clean_qq.False,segment.False,parse_qq.False'), 'cfg'),
     "sort_tracts('s.rev')": (lambda d: d.sort_tracts('s.rev'), 'post'),
     'filter(even_sec,drop=True)': (lambda d: d.filter(even_sec, drop=True), 'post'),
 }
@@ -137,6 +138,7 @@ TRACT_OPS = {
     "config='clean_qq'": (lambda t: setattr(t, 'config', 'clean_qq'), 'cfg'),
     "config='suppress_lot_divs,qq_depth.1'": (lambda t: setattr(t, 'config', 'suppress_lot_divs,qq_depth.1'), 'cfg'),
     "config=''": (lambda t: setattr(t, 'config', ''), 'cfg'),
+    "config='clean_qq.False,suppress_lot_divs.False,qq_depth_min.1'": (lambda t: setattr(t, 'config', 'clean_qq.False,suppress_lot_divs.False,qq_depth_min.1'), 'cfg'),
 }
 # the committing counterpart of each non-committing operation (for the return-value oracle)
 NC_COUNTERPART = {
@@ -322,6 +324,23 @@ def check_transition(acc, n, hist, name, before, obj0):
             return None
         acc.guard('nocommit_checked')
         return o, after
+    if kind == 'cfg':
+        # a config assignment applies every setting that the assigned text spells out (also an explicit 'off' / 0); what the
+        # text leaves out keeps its value (documented behaviour of the setter)
+        m = __import__('re').match(r"config='(.*)'$", name)
+        spec = _p.Config(m.group(1))
+        wrong = []
+        for attr in _p.Config._CONFIG_ATTRIBUTES:
+            v = getattr(spec, attr)
+            if v is not None and hasattr(o, attr) and getattr(o, attr) != v:
+                wrong.append((attr, getattr(o, attr), v))
+        for attr in _p.Config._CONFIG_ATTRIBUTES:
+            if getattr(spec, attr) is None and hasattr(o, attr) and hasattr(obj0, attr) and getattr(o, attr) != getattr(obj0, attr):
+                wrong.append((attr, getattr(o, attr), 'unchanged ' + repr(getattr(obj0, attr))))
+        if wrong:
+            acc.violation('config_assignment_not_applied', f"C14:config_assignment_not_applied:{SEEDS[n][0]}:{name}:{wrong[0][0]}", case,
+                          got=wrong[:3], note='(setting, value on the object after the assignment, value spelled out in the assigned config)')
+            return None
     # (2) history reduction against a fresh object
     red = reduce_history(n, h2)
     try:
